@@ -41,6 +41,14 @@ def rand_sp(rng):
                 sp["n"]["y"]["deep"] = {"p": rng.choice(TYPED), "q": rng.choice(TYPED)}
     elif r < 0.55:
         sp["n"] = rng.choice(TYPED)
+    # key names that resemble the namespace prefixes of the query language, holding mappings
+    r = rng.random()
+    if r < 0.06:
+        sp["wasp"] = {"x": rng.choice(TYPED)}
+    elif r < 0.12:
+        sp["sp"] = {"a": rng.choice(TYPED)}
+    elif r < 0.16:
+        sp["doc"] = {"sp": {"a": rng.choice(TYPED)}}
     return sp
 
 
